@@ -55,9 +55,15 @@ def run_all(cases, jobs=16, chunks_per_job=6):
     # ... and the cases of components ending in .pyO, which run together in an interpreter started with assertions disabled
     cold = [l for l in cases if ".cold:" in l.split(" ", 2)[1]]
     pyo = [l for l in cases if ".pyO:" in l.split(" ", 2)[1]]
-    cases = [l for l in cases if ".cold:" not in l.split(" ", 2)[1] and ".pyO:" not in l.split(" ", 2)[1]]
+    # ... and the cases of a component ending in .seq, which run one after the other, in the order generated, in a process of their own
+    seqs = {}
+    for l in cases:
+        cid = l.split(" ", 2)[1]
+        if ".seq:" in cid:
+            seqs.setdefault(cid.split(":")[0], []).append(l)
+    cases = [l for l in cases if ".cold:" not in l.split(" ", 2)[1] and ".pyO:" not in l.split(" ", 2)[1] and ".seq:" not in l.split(" ", 2)[1]]
     size = max(1, -(-len(cases) // n))
-    chunks = [cases[i:i + size] for i in range(0, len(cases), size)] + [[l] for l in cold] + ([pyo] if pyo else [])
+    chunks = [cases[i:i + size] for i in range(0, len(cases), size)] + [[l] for l in cold] + ([pyo] if pyo else []) + list(seqs.values())
     model, impl, errors = {}, {}, []
     with cf.ThreadPoolExecutor(max_workers=jobs) as ex:
         futs = {}
